@@ -132,7 +132,7 @@ class _BaseSWHID(Generic[_TObjectType]):
         return SWHID_SEP.join(
             [
                 self.namespace,
-                str(self.scheme_version),
+                "%d" % self.scheme_version,  # a bool is an int and prints as one
                 self.object_type.value,
                 hash_to_hex(self.object_id),
             ]
@@ -380,7 +380,8 @@ class QualifiedSWHID(_BaseSWHID[ObjectType]):
                 else None
             ),
             "lines": (
-                "-".join(str(line) for line in self.lines if line is not None)
+                # "%d": a bool is an int for the validators and prints as one
+                "-".join("%d" % line for line in self.lines if line is not None)
                 if self.lines
                 else None
             ),
